@@ -87,6 +87,47 @@ DESC = {
  'C19-b-r2': ("TimestampFromStdTime clamps to [0, MaxInt32]", "a time at or after 2038-01-19T03:14:08Z"),
  'C20-a-r2': ("generate's final Sync moved inside if c.Fill", "generate -fill=false"),
  'C20-b-r2': ("Timestamp.Truncate implemented with time.Time.Truncate (grid relative to year 1)", "a layout containing a step that does not divide 719162 days (1w, 3d, 7s)"),
+ # ---- round 3 (changes riding on refactorings)
+ 'C01-a-r3': ("fetchRawPoints rewritten with a chunked bulk-read helper whose offset is advanced after the chunk was consumed (adds 0)", "a window with a contiguous run of more than one page of slots (341 on 4 KiB pages)"),
+ 'C01-b-r3': ("archiveUpdateMany skips NaN points ('nothing to store')", "a batch write of NaN over a live value of the same interval"),
+ 'C02-a-r3': ("propagateChain/propagate clean-up: a shadowed `points` makes deeper levels recompute from the originally written points", "three archives, a batch touching a stored and a rejected next-level slot"),
+ 'C02-b-r3': ("xFilesFactor gate hoisted to minKnown := ceil(float64(xff)*slots), compared with len(values)", "an xFilesFactor inexact in float32 and a known fraction exactly at the boundary"),
+ 'C03-a-r3': ("named-archive batch path reuses ArchiveInfo.filterPoints (>= intervalForWrite(now-retention))", "a named-archive batch containing a point whose age equals the retention"),
+ 'C03-b-r3': ("UpdatePointForArchive delegates to UpdatePointsForArchive (archive chosen by retention > age instead of >=)", "a single update whose age equals a non-coarsest archive's retention"),
+ 'C04-a-r3': ("archive lookup extracted into lookupArchive, which treats every negative id as 'best'", "FetchFromArchive with an id <= -2"),
+ 'C04-b-r3': ("fetchRawPoints rewritten as one ring loop whose length is the difference of two truncated slot indexes", "a stored base point that is not step-aligned and a window straddling it"),
+ 'C05-a-r3': ("sum-copy closes its destination through a deferred Sync+Close helper on every exit path", "a failure after the update and before the old final Sync (unwritable text-out)"),
+ 'C05-b-r3': ("openOrCreateCopyDestFile replaced Open/Create(O_EXCL) by Create with O_RDWR|O_CREATE", "an existing destination whose header or size differs from the command-line layout"),
+ 'C06-a-r3': ("interval/intervalForWrite tidied to t.Add(-(Duration(t) % step)) (int32 remainder)", "timestamps >= 2^31 and a step that does not divide 2^32; visible to the reference reader"),
+ 'C06-b-r3': ("extracted ArchiveInfo.size() uint32 multiplies in 32 bits where validate and ExpectedFileSize multiplied in 64", "a layout in which one archive exceeds 4 GiB"),
+ 'C07-a-r3': ("31-bit retention check moved from every archive to the last one only", "a middle archive whose retention overflows and wraps between its neighbours'"),
+ 'C07-b-r3': ("the two six-way method switches replaced by IsStorable() { return m < Mix } (no lower bound)", "aggregation method 0 (or negative) through NewHeader/Create/TakeFrom/Open"),
+ 'C08-a-r3': ("DiffPoints/DiffPointsExcludeSrcNaN merged into a helper that advances the slot time at the loop bottom, after the NaN `continue`", "a source with a NaN hole followed by values, -copy-nan off"),
+ 'C08-b-r3': ("copy's glob loop logs a failing file, carries on and returns the last iteration's err", "glob mode, a failing file that is not last"),
+ 'C09-a-r3': ("diffOneFile's two readers merged into a closure factory; the destination call passes srcRelPath", "single-file diff with -dest different from -src"),
+ 'C09-b-r3': ("readWhisperFileLocal wraps errors with %w and WrapFileNotExistError moves to errors.Is; the server handlers keep os.IsNotExist", "a file missing behind a whispertool server"),
+ 'C10-a-r3': ("sum accumulation rewritten as copy-first-then `+=` skipping NaN addends only", "two or more files and a hole in the first-sorted one"),
+ 'C10-b-r3': ("glob prologue of sumWhisperFileLocal extracted; the not-exist PathError is wrapped with %w", "a non-matching -src pattern through the server or sum-diff"),
+ 'C11-a-r3': ("sumCopyItem drops itemRelDir and joins the dotted item name into the destination path", "an item in a nested directory"),
+ 'C11-b-r3': ("UpdatePointsForArchive filters NaN points through a new knownPoints helper", "a destination holding a stale value where the sum is NaN"),
+ 'C12-a-r3': ("not-exist handling centralised in wrapHandler; handleItems/handleFiles still wrap glob errors in a 400 httpError", "a non-matching item or file pattern through a URL"),
+ 'C12-b-r3': ("time-range query string extracted into a helper; the sum call passes (from, now, until)", "remote sum with an explicit -until in the past and a from older than now-retention"),
+ 'C13-a-r3': ("error-path closes of Open/Create converted to a defer that watches the function-level err, which the failing paths shadow", "a failed Open/Create followed by another lock attempt on the path"),
+ 'C13-b-r3': ("openAndLockFile split; Open reads and validates the header before taking the lock", "two overlapping sessions modifying page 0"),
+ 'C14-a-r3': ("takeFields helper reports the wanted size from the start of src but computes consumed after rest was set to nil", "a truncated Point (5..11 bytes) or TimeSeries prologue"),
+ 'C14-b-r3': ("Points.TakeFrom returns early for a zero count before consuming the count", "an empty point list followed by another message"),
+ 'C15-a-r3': ("shared checkElementsSize(int count) helper; Points.TakeFrom converts the uint64 count to int first", "an 8-byte count >= 2^63 in a hostile view-raw response"),
+ 'C15-b-r3': ("validateAggregationMethod delegates to the generated IsAAggregationMethod (accepts mix, percentile)", "a header with method 7 or 8, two archives, a propagating update"),
+ 'C16-a-r3': ("archive selection extracted into archiveIDRange, which rejects id > count instead of >=", "view-raw -archive N on an N-archive file (index out of range panic)"),
+ 'C16-b-r3': ("diff/sum-diff loops merged into diffEach, which assigns diffFound = errors.Is(...) per item", "two or more items, a differing or missing one that is not last"),
+ 'C17-a-r3': ("response encoding moved to a helper with a pooled buffer that is Put back (defer) before the handler writes it", "overlapping requests with a slow-reading client"),
+ 'C17-b-r3': ("sum workers assign to the enclosing function's err (= instead of :=)", "concurrent reads; -race, or an unreadable file"),
+ 'C18-a-r3': ("view-raw sorts before filtering and cuts the range with sort.Search using Time >= until for the upper bound", "-sort and a written slot stamped exactly `until`"),
+ 'C18-b-r3': ("PointsList.Print formats times with time.Unix(...).AppendFormat, bypassing the UTC conversion", "a non-UTC process time zone"),
+ 'C19-a-r3': ("leadingInt accumulates in int64 and checks the 32-bit range once after the loop", "a numeral of 19 or more digits (>= 2^63)"),
+ 'C19-b-r3': ("ParseTimestamp gains a range check against MaxInt32; timestampValue.Set/String call it", "a timestamp with bit 31 set (2038..2106)"),
+ 'C20-a-r3': ("Create's cleanup defer also os.Remove(filename), registered before the exclusive open", "generate onto an existing file"),
+ 'C20-b-r3': ("fill block extracted into fill(); the no-fill early return skips db.Sync()", "generate -fill=false"),
 }
 
 def main():
@@ -107,8 +148,9 @@ def main():
         prop = os.path.basename(os.path.dirname(src)).replace('out-', '')
         x = os.path.basename(src)
         sid = f'{prop}-{x}' + (f'-{suffix}' if suffix else '')
-        v = verifies.get(src)
-        mx = matrix.get(src)
+        flat = os.path.join(rnd, 'flat', sid)
+        v = verifies.get(src) or verifies.get(flat)
+        mx = matrix.get(src) or matrix.get(flat)
         if not v or not mx:
             print('skip (not verified / no matrix):', sid)
             continue
